@@ -45,7 +45,7 @@ func init() {
 		Faults: []string{"fault_dial_fail", "fault_rpc_error", "fault_dial_timeout", "fault_rpc_timeout", "time_advance", "probe_dial_failure_during_crawl", "probe_partial_query_failure"}})
 	sim.Register(&sim.Scenario{Prop: "C16", Name: "fullrt-recrawl", Weight: 1, Run: func(s *sim.Sim) { runC16FullCrawl(s, true) },
 		Real: crReal, Stub: crStub,
-		Faults: []string{"probe_second_crawl", "probe_dup_seed"}})
+		Faults: []string{"probe_second_crawl", "probe_dup_seed", "probe_host_forgot_crawled_peer", "probe_seed_without_address", "probe_addrless_seed_reachable_by_referral"}})
 	emReal := []string{"fullrt.FullRT single and bulk operations on an empty table; NewFullRT with options omitted", "crawler.DefaultCrawler (default instance when WithCrawler is omitted)", "internal/net message sender (when the sender option is omitted; streams fail)"}
 	sim.Register(&sim.Scenario{Prop: "C16", Name: "fullrt-empty-and-options", Weight: 2, Run: func(s *sim.Sim) { runC16Empty(s, "options") },
 		Real: emReal, Stub: rtStub,
@@ -622,6 +622,26 @@ func runC16FullCrawl(s *sim.Sim, recrawl bool) {
 	for _, p := range u.Peers {
 		h.Peerstore().AddAddrs(p.ID, p.Addrs, peerstore.PermanentAddrTTL)
 	}
+	// ... and, like a real host (identify), keeps the addresses of a peer it is
+	// connected to for as long as the connection lasts. Only matters for peers
+	// the host has forgotten between two crawls (see below): the addresses the
+	// dial was made with would otherwise lapse after the peerstore's short
+	// "temporary" TTL while the crawl is still running.
+	w.OnDialOK = func(p peer.ID) {
+		if q := u.ByID(p); q != nil {
+			h.Peerstore().AddAddrs(p, q.Addrs, peerstore.PermanentAddrTTL)
+		}
+	}
+	forget := 0
+	if recrawl {
+		forget = s.Draw("forget", 3)
+	}
+	// How often virtual time jumps while a crawl is running (a jump of seconds
+	// or minutes makes every dial and query in flight time out): never, rarely,
+	// often. A crawl takes 16 scheduler steps per peer, so with frequent jumps
+	// hardly any peer is ever queried completely and the table stays empty -
+	// the second crawl needs a first one that found somebody.
+	tickDen := []int{0, 64, 12}[s.Draw("time-jumps", 3)]
 	snd := &c16Sender{S: s, U: u}
 	connectTimeout := []time.Duration{time.Second, 5 * time.Second, time.Minute}[s.Draw("connect-timeout", 3)]
 	dc, err := crawler.NewDefaultCrawler(h,
@@ -638,7 +658,7 @@ func runC16FullCrawl(s *sim.Sim, recrawl bool) {
 	boot := c16PickPeers(u, rng, s.Range("boot", 1, 3))
 	r, ctor := buildC16RT(s, u, h, c16RTOpts{Prefix: "/sim", K: K, SetK: true, L: L, SetL: true, Interval: time.Hour,
 		Boot: boot, SetBoot: true, Crawler: oc, SetSender: true, SetValid: true})
-	s.Summary["cfg"] = fmt.Sprintf("N=%d K=%d limit=%d boot=%d faults=%d connectTimeout=%v recrawl=%v", n, K, L, len(boot), faultLevel, connectTimeout, recrawl)
+	s.Summary["cfg"] = fmt.Sprintf("N=%d K=%d limit=%d boot=%d faults=%d connectTimeout=%v recrawl=%v forget=%d timeJumps=1/%d", n, K, L, len(boot), faultLevel, connectTimeout, recrawl, forget, tickDen)
 	if r.RT == nil {
 		s.Violate("ctor-failed", "NewFullRT with all options set failed: done=%v err=%v panic=%s", ctor.Done, ctor.Err, firstLine(ctor.Panic))
 		r.close()
@@ -656,7 +676,7 @@ func runC16FullCrawl(s *sim.Sim, recrawl bool) {
 			if o.isReturned() {
 				return true
 			}
-			if s.Chance("tick", 1, 12) {
+			if tickDen > 0 && s.Chance("tick", 1, tickDen) {
 				d := []time.Duration{10 * time.Millisecond, 700 * time.Millisecond, 3 * time.Second, 20 * time.Second, 4 * time.Minute}[s.Draw("tick-d", 5)]
 				s.Sleep(d)
 				s.Count("time_advance")
@@ -738,6 +758,23 @@ func runC16FullCrawl(s *sim.Sim, recrawl bool) {
 				w.addRef(b, u.Peers[rng.Intn(n)], rng)
 			}
 		}
+		// ... and the host forgets some of the peers it found: the connection is
+		// gone and the peerstore entry has lapsed (on a real host the addresses of
+		// a disconnected peer are kept for a limited time, well below the default
+		// crawl interval). FullRT seeds the next crawl with the bare ids of all
+		// peers of the previous crawl, so these are seeds without any address:
+		// the crawl reaches them only if a queried peer names them or if they are
+		// bootstrap peers as well (listed again, with addresses, further down the
+		// seed list).
+		if forget > 0 {
+			for _, p := range c1.Peers {
+				if rng.Intn(8) < []int{0, 2, 5}[forget] {
+					h.Net().SetConnected(p.ID, false)
+					h.Peerstore().ClearAddrs(p.ID)
+					s.Count("probe_host_forgot_crawled_peer")
+				}
+			}
+		}
 		markDial, markLog := len(h.DialLog), len(snd.Snapshot())
 		if !r.trigger(false, 0, func() bool { return oc.numRuns() == 2 }) {
 			s.Violate("crawl-not-started", "the second crawl was not started by TriggerRefresh")
@@ -752,6 +789,12 @@ func runC16FullCrawl(s *sim.Sim, recrawl bool) {
 					break
 				}
 				seen[p] = true
+			}
+			for _, p := range c1.Peers {
+				if !o2.seedHasAddr[p.ID] {
+					s.Count("probe_seed_without_address")
+					break
+				}
 			}
 			if crawl(o2) {
 				c2 = after(o2)
